@@ -32,7 +32,10 @@ use graph::number_of_hops;
 
 use crate::{
     identifier::isd_asn::IsdAsn,
-    path::{ScionPath, fingerprint::data_plane::DpPathFingerprint},
+    path::{
+        ScionPath, fingerprint::data_plane::DpPathFingerprint,
+        metadata::path_interface::PathInterface,
+    },
     segment::{Entry, PathSegment},
 };
 
@@ -116,13 +119,28 @@ fn has_loops(path: &ScionPath) -> bool {
 /// number of duplicates in wide network topologies.
 #[inline]
 fn filter_duplicates(paths: Vec<ScionPath>) -> Vec<ScionPath> {
-    // Store the index of the path with the latest expiry for every unique path fingerprint.
-    let mut path_result = Vec::new();
-    let mut unique_paths: HashMap<DpPathFingerprint, (u32, usize)> = HashMap::new();
-    for path in paths.into_iter() {
-        let fingerprint = path.fingerprint();
+    // Store the index of the path with the latest expiry for every unique path.
+    // Two paths are the same path if they traverse the same interfaces in the same order. The
+    // data plane fingerprint alone does not tell: it hashes the hop fields, which differ for a core
+    // segment offered in both construction directions and in the unused interface of a shortcut
+    // hop, although the traversed route is identical.
+    #[derive(PartialEq, Eq, Hash)]
+    enum PathIdentity {
+        Interfaces(Vec<PathInterface>),
+        Fingerprint(DpPathFingerprint),
+    }
 
-        match unique_paths.entry(fingerprint) {
+    let mut path_result = Vec::new();
+    let mut unique_paths: HashMap<PathIdentity, (u32, usize)> = HashMap::new();
+    for path in paths.into_iter() {
+        let identity = match path.metadata().and_then(|m| m.interfaces.as_ref()) {
+            Some(interfaces) => {
+                PathIdentity::Interfaces(interfaces.iter().map(|i| i.interface).collect())
+            }
+            None => PathIdentity::Fingerprint(path.fingerprint()),
+        };
+
+        match unique_paths.entry(identity) {
             // If we already have a path with the same fingerprint, compare the expiration and keep
             // the one with the later expiration.
             std::collections::hash_map::Entry::Occupied(mut entry) => {
